@@ -696,6 +696,8 @@ def run(run):
     justify_rules(run, fx)
     undo(run, fx)
     justpool(run, fx)
+    poolsize(run, fx)
+    poolcount(run, fx)
     linebreak(run, fx)
     nullwalk(run, fx)
     posreverse(run, fx)
@@ -704,3 +706,161 @@ def run(run):
     c02.advidx(run, fx)      # justify positions with the caller's gr_font: the hinted-advance cache index (shared with C02)
     run.assume('allocation failure (addLineEnd returning NULL) is outside the quantifier: the `return -1.0` exit is exempt')
     run.observe('reverseSlots being an involution for arbitrary diacritic arrangements is value-dependent and not decided')
+
+
+def poolsize(run, fx, maxlev=8):
+    """JUSTPOOL, second half: the records of the pool are big enough for what is stored in them, and the pool never has zero records.
+    (a) SlotJustify::size_of(L), interpreted from its own CFG for every level count L = 0..maxlev, gives the int16 capacity of a record;
+    Slot::setJustify (with SlotJustify::LoadSlot inlined) and Segment::freeJustify are then interpreted on such a record for every level
+    and sub-index they accept: every store lands inside the record (the interpreter reports an index outside the modelled array).
+    (b) every value stored in the record count Segment::m_bufSize has lower bound >= 1: newSlot writes newSlots[m_bufSize-1] and
+    newJustify takes the block's first record unconditionally."""
+    from . import ordint as O
+    so = fx.fns_named('graphite2::SlotJustify::size_of')
+    if not so:
+        run.broken('UNDO', 'justify record size', 'SlotJustify::size_of not found', '')
+        return
+    so = so[0]
+    fj = fx.one('graphite2::Segment::freeJustify')
+    sj = fx.one('graphite2::Slot::setJustify')
+    PJ, PS, PG, PF = 'graphite2::SlotJustify::', 'graphite2::Slot::', 'graphite2::Segment::', 'graphite2::Silf::'
+    jrec = fx.record('graphite2::SlotJustify')
+    fields = [f['n'] for f in jrec['fields']]
+    if fields != ['next', 'values']:
+        run.broken('UNDO', 'justify record layout', 'SlotJustify is expected to be {next, values[]}, found %s' % fields, so.where())
+        return
+    HDR = 8     # the record's `next` pointer precedes the values (LP64, as the build's sizeof facts)
+    cases = 0
+    bad = None
+    try:
+        for L in range(0, maxlev + 1):
+            S = O.Interp(fx).call(so, None, [L])
+            if not isinstance(S, int):
+                raise O.AnalysisBroken('size_of(%d) did not evaluate to a number: %r' % (L, S))
+            cap = (S - HDR) // 2 if S >= HDR else 0
+
+            def mkseg():
+                silf = O.Rec()
+                silf[PF + 'm_numJusts'] = L
+                silf[PF + 'm_justs'] = O.It(O.Vec([O.Rec({'graphite2::Justinfo::m_astretch': 1, 'graphite2::Justinfo::m_ashrink': 2, 'graphite2::Justinfo::m_astep': 3, 'graphite2::Justinfo::m_aweight': 4}) for _ in range(L)]), 0)
+                seg = O.Rec()
+                seg[PG + 'm_silf'] = O.Ptr(silf)
+                seg[PG + 'm_freeJustifies'] = O.Ptr(None)
+                return seg
+
+            def mkrec():
+                r = O.Rec()
+                r[PJ + 'next'] = O.Ptr(None)
+                r[PJ + 'values'] = O.It(O.Vec([0] * cap), 0)
+                return r
+            # freeJustify clears the whole record
+            lens = []
+
+            def memset_(I, fn, e, obj, args):
+                lens.append(I.rv(args[2]))
+                return None
+            it = O.Interp(fx, natives={'memset': memset_})
+            it.call(fj, mkseg(), [O.Ptr(mkrec())])
+            cases += 1
+            if len(lens) != 1 or not isinstance(lens[0], int):
+                raise O.AnalysisBroken('Segment::freeJustify is expected to clear the record with one memset of a computed length, found %r' % (lens,))
+            if HDR + lens[0] > S:
+                bad = ('Segment::freeJustify clears %d bytes of values in a record for %d justification level(s), but SlotJustify::size_of(%d) = %d leaves room for %d: the memset runs %d byte(s) '
+                       'past the record (into the next record of the pool, or past the block for the last one)' % (lens[0], L, L, S, max(S - HDR, 0), HDR + lens[0] - S), fj.where())
+                break
+            for level in range(0, min(L + 2, 256)):
+                for sub in range(0, 5):
+                    rec = mkrec()
+                    nat = {'graphite2::Segment::newJustify': lambda I, fn, e, obj, args, rec=rec: O.Ptr(rec),
+                           'graphite2::Segment::glyphAttr': lambda I, fn, e, obj, args: 0}
+                    it = O.Interp(fx, natives=nat)
+                    slot = O.Rec()
+                    slot[PS + 'm_justs'] = O.Ptr(None)
+                    slot[PS + 'm_glyphid'] = 3
+                    cases += 1
+                    try:
+                        it.call(sj, slot, [O.Ptr(mkseg()), level, sub, 7])
+                    except O.Violation as v:
+                        bad = ('Slot::setJustify(level %d, sub-index %d) on a font with %d justification level(s), record of SlotJustify::size_of(%d) = %d bytes (%d values): %s'
+                               % (level, sub, L, L, S, cap, v.what), v.loc)
+                        break
+                if bad:
+                    break
+            if bad:
+                break
+    except O.AnalysisBroken as x:
+        run.broken('UNDO', 'justify record size', str(x), so.where())
+        return
+    inst = 'a justify record holds every value stored in it (levels 0..%d)' % maxlev
+    if bad:
+        run.violated('UNDO', inst, bad[1], bad[0])
+    else:
+        run.held('UNDO', inst, so.where(), '%d interpreted stores / clears inside size_of(L) bytes' % cases)
+
+
+def _lower_bound(fn, n, depth=0):
+    """a constant lower bound of integer expression n, or None: unsigned quantities are >= 0, sums and products of non-negative
+    quantities add / multiply, a conditional takes the smaller arm (refined by `x ? f(x) : c`: nothing is assumed about f), max() the
+    larger argument.  Wrap-around of unsigned arithmetic is not modelled (stated as an assumption by the caller)."""
+    n = fn.strip_all_casts(fn.N(n) if isinstance(n, int) else n)
+    if depth > 12:
+        return None
+    if n.get('v') is not None and isinstance(n['v'], int):
+        return n['v']
+    k = n['k']
+    if k == 'IntegerLiteral':
+        return int(n.get('v') or 0)
+    if k == 'BinaryOperator' and n['op'] in ('+', '*'):
+        a, b = _lower_bound(fn, n['c'][0], depth + 1), _lower_bound(fn, n['c'][1], depth + 1)
+        if a is None or b is None:
+            return None
+        if n['op'] == '+':
+            return a + b
+        return a * b if a >= 0 and b >= 0 else None
+    if k == 'BinaryOperator' and n['op'] == '>>':
+        a = _lower_bound(fn, n['c'][0], depth + 1)
+        return 0 if a is not None and a >= 0 else None
+    if k == 'ConditionalOperator':
+        a, b = _lower_bound(fn, n['c'][1], depth + 1), _lower_bound(fn, n['c'][2], depth + 1)
+        return None if a is None or b is None else min(a, b)
+    if k == 'CallExpr' and (n.get('fq') or '').split('::')[-1].split('<')[0] == 'max' and len(n.get('args') or []) == 2:
+        a, b = _lower_bound(fn, n['args'][0], depth + 1), _lower_bound(fn, n['args'][1], depth + 1)
+        c = [x for x in (a, b) if x is not None]
+        return max(c) if c else None
+    t = (n.get('t') or '')
+    if t.startswith(('unsigned', 'size_t', 'uint', 'graphite2::uint', 'std::size_t')) or t in ('unsigned long', 'unsigned int', 'unsigned short', 'unsigned char'):
+        return 0
+    return None
+
+
+def poolcount(run, fx):
+    """the growth count of the slot / justify pools (the field multiplied into Segment::newJustify's allocation) is at least 1
+    wherever it is stored: newJustify takes the first record of a fresh block unconditionally and newSlot writes element count-1."""
+    from .util import field_writes
+    F = 'graphite2::Segment::m_bufSize'
+    nj = fx.one('graphite2::Segment::newJustify')
+    if not any(e['k'] == 'MemberExpr' and e.get('d') == F for _, e in nj.elements()):
+        run.broken('UNDO', 'pool growth count', 'Segment::newJustify no longer sizes its block by m_bufSize', nj.where())
+        return
+    ws = field_writes(fx).get(F, [])
+    n = 0
+    for fn, e, kind in ws:
+        if kind == 'init':
+            src = e.get('init')
+        elif e['k'] == 'BinaryOperator' and e['op'] == '=':
+            src = e['c'][1]
+        else:
+            src = None
+        inst = 'growth count stored in %s @%s' % (fn.q.split('graphite2::')[-1], e.get('ln'))
+        n += 1
+        lb = _lower_bound(fn, src) if src is not None else None
+        if lb is None:
+            run.broken('UNDO', inst, 'cannot bound `%s` from below' % fn.render(e)[:80], fn.loc(e))
+        elif lb >= 1:
+            run.held('UNDO', inst, fn.loc(e), 'lower bound %d' % lb)
+        else:
+            run.violated('UNDO', inst, fn.loc(e), '`%s` can be %d: Segment::newJustify then allocates a block of zero records and takes its first one (`m_freeJustifies->next` is read, and the '
+                         'values written, outside the allocation); Segment::newSlot writes newSlots[m_bufSize - 1]' % (fn.render(e)[:100], lb))
+    if n < 2:
+        run.broken('UNDO', 'pool growth count', 'expected the constructor initialiser and the assignment in Segment::Segment, found %d stores' % n, nj.where())
+    run.assume('unsigned arithmetic in the pool growth count does not wrap (log_binary(0) + 1 is 0: a segment of zero characters never asks for a slot or a justify record)')
